@@ -77,7 +77,12 @@ def lua_loader(ctx: "Wtp", modname: str) -> Optional[str]:
                 continue
 
             file_path = LUA_DIR / prefix / path
-            if file_path.is_file():
+            try:
+                found = file_path.is_file()
+            except OSError:
+                # e.g. a module name longer than the file system allows
+                found = False
+            if found:
                 with file_path.open("r", encoding="utf-8") as f:
                     data = f.read()
                 break
